@@ -534,6 +534,9 @@ func (b *batch) explore() {
 				case "watchdog":
 					b.watchdog++
 				case "exit":
+					if code == 4 {
+						break // livelock in gldap: the worker wrote the violation itself
+					}
 					b.exits++
 					fmt.Fprintf(os.Stderr, "verif: worker %d exited with code %d: %s\n", j, code, c.Text)
 				default:
@@ -994,8 +997,8 @@ func reportViolation(b *batch, v Violation, r *RunResult, c *crash, doMin bool) 
 			rf.Config = res.Config
 		}
 	}
-	if c != nil && r == nil {
-		rf.Mode = "seed"
+	if (c != nil && r == nil) || (r != nil && len(r.Choices) == 0) {
+		rf.Mode = "seed" // worker death or livelock: no choice trace, replay by (seed, run index)
 	}
 	if c != nil {
 		rf.Trace = append(rf.Trace, "worker death: "+c.Text, "first frame: "+c.Site, "goroutine created by: "+c.Gor)
@@ -1043,6 +1046,13 @@ func replay(path string) int {
 		if code != 0 {
 			if v, ok := crashViolation(rf.Check, parseCrash(stderr)); ok {
 				ids[v.ID()] = v
+			}
+		}
+		if runs, _, _ := readOut(out); len(runs) > 0 {
+			for _, r := range runs {
+				for _, v := range r.Viol {
+					ids[v.ID()] = v
+				}
 			}
 		}
 		if rf.Race {
